@@ -32,6 +32,9 @@ func init() {
 	register(&Family{Name: "calc", Gen: genCalc, Run: runCalc})
 	register(&Family{Name: "alloc", Gen: genAlloc, Run: runAlloc})
 	register(&Family{Name: "divvy", Gen: genDivvy, Run: runDivvy})
+	// "allocrep": the same allocation executed ALLOC_REPEATS times in one process (Go re-randomises map iteration on
+	// every range statement); output = the distinct call lists joined by " || " — one iff deterministic
+	register(&Family{Name: "allocrep", Gen: genAllocRep, Run: runAllocRep})
 }
 
 func decRaw(d math.LegacyDec) string { return d.BigInt().String() }
@@ -229,4 +232,33 @@ func runDivvy(t *testing.T, in []string) string {
 	}
 	_ = hex.EncodeToString
 	return strings.Join(outs, ",")
+}
+
+func genAllocRep(r *Rng, i int, tier string) []string {
+	// equal powers and non-divisible rewards: the cases in which "who gets the remainder" is visible
+	nRep := 2 + r.Intn(5)
+	p := uint64(r.Pick(1, 3, 10, 7))
+	var reps []string
+	for j := 0; j < nRep; j++ {
+		q := p
+		if r.Chance(1, 4) {
+			q = uint64(r.Range(1, 5))
+		}
+		reps = append(reps, fmt.Sprintf("%s:%d:%d", addrOf(j), q, 100))
+	}
+	reward := r.Pick(1, 7, 10, 100, 1000, r.Range(1, 1e9))
+	return []string{fmt.Sprint(reward), "q0=" + strings.Join(reps, ",")}
+}
+
+func runAllocRep(t *testing.T, in []string) string {
+	seen := map[string]bool{}
+	for j := 0; j < envInt("ALLOC_REPEATS", 16); j++ {
+		seen[runAlloc(t, in)] = true
+	}
+	var outs []string
+	for k := range seen {
+		outs = append(outs, k)
+	}
+	sort.Strings(outs)
+	return strings.Join(outs, " || ")
 }
